@@ -24,6 +24,10 @@ CHECKS = {
     text="Real YowInterfaceLayer on top of the assembled encryption + protocol layers. step: one outstanding request of each of 16 kinds (ping, last seen, picture, statuses, privacy, group operations, contact sync, media upload), a reply whose id is an unconstrained z3 string and whose type is result/error, delivered twice: success/error callback exactly once iff id matches, with the original request, replay invokes nothing. history: 2 (thorough 3) outstanding requests of solver-chosen kinds x 3 (4) deliveries to solver-chosen targets (incl. unknown ids) in any order. internal: key upload and key fetch registries of the encryption layers.",
     note="Trusted: engine string model, manager stub, reply bodies of documented shape. Reply types other than result/error and histories beyond the bound are outside.",
     technique="symbolic execution of the request registries in the assembled stack (z3 string reply id, solver-chosen histories); concrete replay of every model"),
+ "C12": dict(cat="fault_enumeration", design="4/C12",
+    text="The real default stack (all core, encryption and protocol layers + application layer) with recording non-blocking locks on every YowLayer.lock and the noise flush lock. The solver enumerates failure kind (unencodable value, >=16 MiB frame with symbolic length, no transport session, undecodable frame, handler-rejected stanza, raising application callback) x position in a sequence of 3 (thorough 4) operations x follow-up (send / incoming frame / both); after the failure: error reached the caller, no lock held, every later operation completes.",
+    note="Trusted: Noise transport stub (transparent), manager stub; a lock found held stands for 'any later thread blocks forever' (OS-thread blocking itself is not executed).",
+    technique="solver-driven fault enumeration over the real stack (symbolic execution engine, choice variables + symbolic frame length); concrete replay of every model"),
  "C15": dict(cat="model_checking", design="4/C15",
     text="Symbolic execution of the real mediacipher module with HKDF / AES-CBC / HMAC as uninterpreted terms (dec(enc(x))=x) and PKCS7 modelled exactly; the plaintext length L is a solver variable (0..80 quick, 0..4096 thorough; contents and key abstract). Obligations: decrypt(encrypt(p)) == p for every L and kind; the ciphertext term equals the independent reference layout (HKDF iv/key/mac key, always-padded CBC, 10-byte MAC over iv+ct); a flip at any symbolic position of ciphertext or tag, truncation, wrong key or wrong kind raises. Every model is replayed with the real cryptography library and compared byte for byte with ref/mediacipher_ref.py (own HKDF); the repository's fixture vector is checked against both.",
     note="Trusted: crypto models (ideal-primitive assumption for tamper detection: different MAC inputs give different MACs), PKCS7 model, z3; the real primitives are only exercised on the solver's witnesses and (thorough) every length 0..80.",
